@@ -761,6 +761,62 @@ theorem C17_translator_unguarded_witness :
 
 /-! ### The regenerated facts agree with the variants the model is set to -/
 
+/-! ### Decide and deduct in one step (fix cd6f867) -/
+
+private theorem atomic_step (r : Nat) (rest : List LStep) (s : LState) (hfresh : ∀ p ∈ s.decided, p.1 ≠ r) :
+    lookThenTake s (LStep.look r :: LStep.take r :: rest) =
+      if unit ≤ s.tokens then lookThenTake { tokens := s.tokens - unit, decided := (r, true) :: s.decided, admitted := r :: s.admitted } rest
+      else lookThenTake { s with decided := (r, false) :: s.decided } rest := by
+  by_cases hu : unit ≤ s.tokens <;> simp [lookThenTake, hu, List.find?_cons]
+
+private theorem atomic_conserves (rs : List Nat) (hn : rs.Nodup) (s : LState) (hnd : ∀ r ∈ rs, ∀ p ∈ s.decided, p.1 ≠ r)
+    (h0 : 0 ≤ s.tokens) :
+    0 ≤ (lookThenTake s (atomicSchedule rs)).tokens ∧
+    ((lookThenTake s (atomicSchedule rs)).admitted.length : Int) * unit + (lookThenTake s (atomicSchedule rs)).tokens
+      = (s.admitted.length : Int) * unit + s.tokens := by
+  induction rs generalizing s with
+  | nil => exact ⟨h0, rfl⟩
+  | cons r rs ih =>
+    have hnodup := List.nodup_cons.mp hn
+    have hsched : atomicSchedule (r :: rs) = LStep.look r :: LStep.take r :: atomicSchedule rs := by
+      simp [atomicSchedule]
+    rw [hsched, atomic_step r _ s (hnd r (List.mem_cons_self ..))]
+    have hnd2 : ∀ (b : Bool) (r' : Nat), r' ∈ rs → ∀ p ∈ (r, b) :: s.decided, p.1 ≠ r' := by
+      intro b r' hr' p hp
+      simp only [List.mem_cons] at hp
+      rcases hp with rfl | hp
+      · intro h
+        have h' : r = r' := h
+        subst h'
+        exact hnodup.1 hr'
+      · exact hnd r' (List.mem_cons_of_mem _ hr') p hp
+    by_cases hu : unit ≤ s.tokens
+    · simp only [hu, if_true]
+      have := ih hnodup.2 { tokens := s.tokens - unit, decided := (r, true) :: s.decided, admitted := r :: s.admitted }
+        (hnd2 true) (by simp only; omega)
+      simp only [List.length_cons] at this
+      refine ⟨this.1, ?_⟩
+      have h2 := this.2
+      push_cast at h2
+      rw [Int.add_mul, Int.one_mul] at h2
+      omega
+    · simp only [hu, if_false]
+      exact ih hnodup.2 { s with decided := (r, false) :: s.decided } (hnd2 false) h0
+
+/-- **Atomic decisions never overdraw**: however many requests arrive at one instant, with decision and deduction in one
+    step the number admitted is at most the number of whole tokens in the bucket. -/
+theorem C17_atomic_never_overdraws (tokens : Int) (h0 : 0 ≤ tokens) (rs : List Nat) (hn : rs.Nodup) :
+    ((lookThenTake ⟨tokens, [], []⟩ (atomicSchedule rs)).admitted.length : Int) * unit ≤ tokens := by
+  have h := atomic_conserves rs hn ⟨tokens, [], []⟩ (by intro r _ p hp; cases hp) h0
+  simp only [List.length_nil] at h
+  omega
+
+/-- **Look, then take, with somebody in between**: one token in the bucket, two requests look before either takes —
+    both are admitted (the shape of seed C17-f; the pinned reserve / cancel pattern over-admitted under overlap too). -/
+theorem C17_look_then_take_witness :
+    (lookThenTake ⟨unit, [], []⟩ [.look 0, .look 1, .take 0, .take 1]).admitted.length = 2 ∧
+    (lookThenTake ⟨unit, [], []⟩ (atomicSchedule [0, 1])).admitted.length = 1 := by decide
+
 /-- What the compiled middleware that the production wiring mounts does — status of a rate-limit
     refusal, status of an oversize Content-Length, "a second connection gets a fresh bucket", "a chunked
     body is cut off at the maximum" (measured by gen_security on every run) — is what the model's active
